@@ -4,7 +4,7 @@ from fractions import Fraction
 import numpy as np
 from hypothesis import strategies as st
 
-from checks.common import (S, Raised, call, coplanarity_ambiguous, diameter, face_key, get,
+from checks.common import (S, Raised, call, coplanarity_ambiguous, diameter, face_key, facet_flatness, get,
                            perm_from_noise, tol_scale)
 from gen import zoo
 from harness.runner import Clause
@@ -77,6 +77,11 @@ def _measures(rec, V, tag, sig0):
         rec.check(it.shape == (3, 3) and np.allclose(it, it.T, rtol=0, atol=T["m5"]), "inertia_symmetric", sig0)
     # per-face quantities keyed by vertex set
     amb = coplanarity_ambiguous(V, facets, normals, offsets) if not exact else False
+    if sig0.get("anchored"):
+        # anchoring subtracts an offset of up to 10 diameters: the coplanarity of a facet's vertices then carries the
+        # rounding of the *old* coordinates (several ulps of the new ones), and the exact hull of such points really has
+        # the extra edge - whether a facet is reported whole or split is not judged there (the measures are)
+        amb = amb or coplanarity_ambiguous(V, facets, normals, offsets, lo=0.0) or facet_flatness(V, facets, normals, offsets) > 2.0
     pf = [face_key(fc) for fc in poly.faces]
     same = set(pf) == set(areas) and len(pf) == len(areas)
     if not amb:
@@ -120,6 +125,8 @@ def _convex(case, rec):
     vd = case.get("vdtype", "float")
     if vd in ("int64", "int32") and not exact:
         vd = "float"
+    if case.get("anchor"):
+        sig0["anchored"] = "True"
     if vd != "float":
         sig0["vertices_as"] = vd
         rec.label("vertices_as:" + vd)
@@ -154,7 +161,8 @@ def _convex(case, rec):
         inv2 = {i: p2[i] for i in range(n)}
         fa = {frozenset(inv1[int(i)] for i in fc) for fc in a.faces}
         fb = {frozenset(inv2[int(i)] for i in fc) for fc in b.faces}
-        if not coplanarity_ambiguous(V, *geom.convex_facets(V)[:3]):
+        cf = geom.convex_facets(V)[:3]
+        if not coplanarity_ambiguous(V, *cf, lo=0.0 if case.get("anchor") else 1e-12) and not (case.get("anchor") and facet_flatness(V, *cf) > 2.0):
             rec.check(fa == fb, "order_faces", sig0)
 
 
